@@ -364,7 +364,7 @@ pub fn run(ctx: &Ctx) -> Result<Evidence, String> {
         });
         acc.count("concurrent_reference_calls_checked", checked.load(std::sync::atomic::Ordering::Relaxed));
     }
-    let mut ev = Evidence::new("cases: for every document (all small trees over keys a,b,0; documents whose member names contain / ~ ~0 ~1 % digits-only ' \\ blanks, empty, unicode, quote-wrapped; curated and random documents; built documents 60..700 levels deep) every location's Normalized Path is given to reference (pointer-compared with the node found by an independent walk); non-existent paths of ten kinds must answer None; writes of every JSON type through reference_mut are compared with our own location-based update of a copy (this one comparison covers 'that node changed' and 'nothing else changed'); update histories in random order over all paths one query returned, compared with the model after each step. Non-trivial = distinct (document, location) pairs of depth >= 1 resolved + distinct histories of length >= 2.");
+    let mut ev = Evidence::new("cases: for every document (all small trees over keys a,b,0; documents whose member names contain / ~ ~0 ~1 % digits-only ' \\ blanks, empty, unicode, quote-wrapped; curated and random documents; built documents 60..700 levels deep); indices of 16..39 digits must answer None; a time-bounded concurrent phase (16 threads resolving the paths of documents of their own) every location's Normalized Path is given to reference (pointer-compared with the node found by an independent walk); non-existent paths of ten kinds must answer None; writes of every JSON type through reference_mut are compared with our own location-based update of a copy (this one comparison covers 'that node changed' and 'nothing else changed'); update histories in random order over all paths one query returned, compared with the model after each step. Non-trivial = distinct (document, location) pairs of depth >= 1 resolved + distinct histories of length >= 2.");
     ev.set("exhaustive", json!(false));
     ev.set("documents", json!(docs.len()));
     ev.assume("only well-formed Normalized Paths are judged (existing location -> that node, otherwise None); other spellings are not specified by the property");
